@@ -956,3 +956,67 @@ Proof.
       rewrite Ez in Hlt. now apply Qlt_irrefl in Hlt.
     + simpl. eexists; reflexivity.
 Qed.
+
+(* ==================================================================================== *)
+(** * The normal equations characterise the minimiser of the penalised least-squares criterion
+      ||r - Z b||^2 + b' Psi^-1 b  (= -2 sigma^2 log joint density of (r, b) up to a constant: for jointly Gaussian
+      (r, b) its minimiser, the posterior mode, is the conditional mean E[b | r]) *)
+
+Fixpoint rss (Z : list (Q * Q)) (r : list Q) (b : Q * Q) : Q :=
+  match Z, r with
+  | z :: Z', y :: r' => (y - (fst z * fst b + snd z * snd b)) * (y - (fst z * fst b + snd z * snd b)) + rss Z' r' b
+  | _, _ => 0
+  end.
+
+Definition quad (P : mat2) (b : Q * Q) : Q :=
+  fst b * (m11 P * fst b + m12 P * snd b) + snd b * (m21 P * fst b + m22 P * snd b).
+
+Definition objective (Z : list (Q * Q)) (r : list Q) (P : mat2) (b : Q * Q) : Q := rss Z r b + quad P b.
+
+Lemma rss_expand Z : forall r b, length Z = length r ->
+  rss Z r b == dotQ r r - 2 * (fst b * fst (Ztr Z r) + snd b * snd (Ztr Z r)) + quad (ZtZ Z) b.
+Proof.
+  induction Z as [|z Z IH]; intros [|y r] b H; simpl in H; try discriminate.
+  - unfold quad, Ztr, ZtZ. simpl. ring.
+  - specialize (IH r b ltac:(lia)). cbn [rss]. rewrite IH.
+    unfold quad, Ztr, ZtZ. cbn [map sumQ dotQ fst snd m11 m12 m21 m22]. ring.
+Qed.
+
+Lemma quad_ZtZ_nonneg Z v : 0 <= quad (ZtZ Z) v.
+Proof.
+  assert (E : quad (ZtZ Z) v == sumQ (map (fun z => (fst z * fst v + snd z * snd v) * (fst z * fst v + snd z * snd v)) Z)).
+  { induction Z as [|z Z IH]; unfold quad, ZtZ in *; cbn [map sumQ fst snd m11 m12 m21 m22] in *; [ring|].
+    rewrite <- IH. ring. }
+  rewrite E. clear E. induction Z as [|z Z IH]; cbn [map sumQ]; [apply Qle_refl|].
+  setoid_replace 0 with (0 + 0) by ring. apply Qplus_le_compat; [|exact IH].
+  set (x := fst z * fst v + snd z * snd v). destruct (Qlt_le_dec x 0) as [Hx|Hx].
+  - setoid_replace (x * x) with ((- x) * (- x)) by ring. apply Qmult_le_0_compat; apply (Qopp_le_compat x 0); now apply Qlt_le_weak.
+  - now apply Qmult_le_0_compat.
+Qed.
+
+Lemma ZtZ_sym Z : m12 (ZtZ Z) == m21 (ZtZ Z).
+Proof.
+  unfold ZtZ. cbn [m12 m21]. induction Z as [|z Z IH]; cbn [map sumQ]; [reflexivity|]. rewrite IH. ring.
+Qed.
+
+Theorem penalised_ls_optimal Z r P bh :
+  length Z = length r -> m12 P == m21 P -> (forall v, 0 <= quad P v) ->
+  mat_apply_eq (madd (ZtZ Z) P) bh (Ztr Z r) ->
+  forall b, objective Z r P bh <= objective Z r P b.
+Proof.
+  intros L Sp Pp [E1 E2] b. unfold objective.
+  rewrite !rss_expand by exact L.
+  pose proof (ZtZ_sym Z) as Ss. pose proof (quad_ZtZ_nonneg Z (fst b - fst bh, snd b - snd bh)) as N1.
+  pose proof (Pp (fst b - fst bh, snd b - snd bh)) as N2.
+  destruct (Ztr Z r) as [t1 t2]. destruct (ZtZ Z) as [s11 s12 s21 s22]. destruct P as [p11 p12 p21 p22].
+  destruct b as [b1 b2], bh as [h1 h2]. unfold quad, madd in *. cbn [fst snd m11 m12 m21 m22] in *.
+  apply Qle_minus_iff.
+  setoid_replace (dotQ r r - 2 * (b1 * t1 + b2 * t2) + (b1 * (s11 * b1 + s12 * b2) + b2 * (s21 * b1 + s22 * b2)) +
+     (b1 * (p11 * b1 + p12 * b2) + b2 * (p21 * b1 + p22 * b2)) +
+     - (dotQ r r - 2 * (h1 * t1 + h2 * t2) + (h1 * (s11 * h1 + s12 * h2) + h2 * (s21 * h1 + s22 * h2)) +
+        (h1 * (p11 * h1 + p12 * h2) + h2 * (p21 * h1 + p22 * h2))))
+    with (((b1 - h1) * (s11 * (b1 - h1) + s12 * (b2 - h2)) + (b2 - h2) * (s21 * (b1 - h1) + s22 * (b2 - h2)))
+        + ((b1 - h1) * (p11 * (b1 - h1) + p12 * (b2 - h2)) + (b2 - h2) * (p21 * (b1 - h1) + p22 * (b2 - h2)))).
+  - setoid_replace 0 with (0 + 0) by ring. now apply Qplus_le_compat.
+  - rewrite <- E1, <- E2. rewrite Ss, Sp. ring.
+Qed.
